@@ -202,6 +202,8 @@ def parseBinQuery (tok : String) : Option BinQuery :=
 
 /-! ### expressions (Spec/Metrics.lean `evalExpr`): scalar operands, unary minus, on()/ignoring(), nesting
    query token:  bx!<start>!<end>!<expr>      with <expr> in prefix form, fields separated by `!`:
+                 fx!<start>!<end>!<expr>      the same expression sent through the FORMULA route (named queries a, b, …,
+                                              one per distinct operand text, formula over the names): same value (Spec `formulaJudged`)
      v!<style>!<matchers>!<agg|->                      a vector operand (as in `bin!`)
      s!<numerator>!<denominator>                       a number literal (an integer or a short decimal, as a fraction)
      n!<expr>                                          unary minus
@@ -240,12 +242,14 @@ structure ExprQuery where
   start : Nat
   end_ : Nat
   expr : Expr
+  formula : Bool := false   -- token `fx!`: the same expression sent as a FORMULA over named queries (Spec: formulaJudged)
 
 def parseExprQuery (tok : String) : Option ExprQuery :=
   match tok.splitOn "!" with
-  | "bx" :: a :: e :: rest =>
+  | rt :: a :: e :: rest =>
+    if rt != "bx" && rt != "fx" then none else
     match a.toNat?, e.toNat?, parseExpr (rest.length + 1) rest with
-    | some a, some e, some (x, []) => if a ≤ e then some { start := a, end_ := e, expr := x } else none
+    | some a, some e, some (x, []) => if a ≤ e then some { start := a, end_ := e, expr := x, formula := rt == "fx" } else none
     | _, _, _ => none
   | _ => none
 
@@ -270,7 +274,7 @@ inductive AnyQuery where
 
 def parseAnyQuery (tok : String) : Option AnyQuery :=
   if tok.startsWith "bin!" then (parseBinQuery tok).map .bin
-  else if tok.startsWith "bx!" then (parseExprQuery tok).map .expr
+  else if tok.startsWith "bx!" || tok.startsWith "fx!" then (parseExprQuery tok).map .expr
   else if tok.startsWith "lv/" then (parseLvQuery tok).map .lv
   else (parseQuery tok).map .plain
 
@@ -312,6 +316,8 @@ def answerExpr (xcls : List String) (ds : List Series) (q : ExprQuery) : String 
     let qs : List Query := ops.map (fun o => { start := q.start, end_ := q.end_, matchers := o.matchers, agg := o.agg })
     let cls := ",".intercalate (dedupS (qs.flatMap (fun qq => classes ds qq (selected ds qq)) ++ xcls ++ exprClasses ds q.start q.end_ q.expr))
     let lat := ",".intercalate (dedupS (qs.flatMap (fun qq => latitude qq (selected ds qq))))
+    -- the FORMULA route is judged only where the engine's label-free convention for formulas cannot differ from PromQL
+    if q.formula && !formulaJudged ds q.start q.end_ q.expr then s!"kind=mbin-undefined cls={cls} lat=formula-loose-matching" else
     match evalExpr ds q.start q.end_ q.expr with
     | some (.vector es) => s!"kind=mbin ser={showXElems es} cls={cls} lat={lat}"
     | _ => s!"kind=mbin-undefined cls={cls} lat={lat}"
